@@ -32,8 +32,11 @@ READY = {
          "(proved in C01/C03), which gives spelling-invariance of each rule. Spacing, sibling-order and duplicate detection are decided by the "
          "bounded workload only (all trees <= 3-4 leaves, all orderings/spellings/blank rewrites)." + BND,
          "no obligation of this property's own is discharged: the check is a bounded stand-in and says so"),
- "C05": ("other", "File round trips run through ElementTree/pandas and are outside the verifier: bounded workload (every bundled schema x 3 formats x "
-         "merged/unmerged, generated edits, independent XML walk, refusal of multi-library saves)." + BND, "no obligations discharged (bounded only)"),
+ "C05": ("other", "Deductive kernel: the refusal to save a multi-library merge (raises before anything is written, ghost output counter) and the "
+         "selection table deciding which entries/attributes are written (_should_skip, _attribute_disallowed, flags set by process_schema for standard / "
+         "partnered merged / partnered unmerged) are proved. The file round trips themselves run through ElementTree/pandas and are decided by the "
+         "bounded workload (every bundled schema x 3 formats x merged/unmerged, generated edits, independent XML walk)." + BND,
+         "writers/readers (schema2xml/wiki/df, *2schema) not under contract; output methods modelled as ghost effects"),
  "C06": ("other", "Cell handlers (_category_handler, _value_handler) proved from the property text (n/a and empty cells are absent, listed keys select "
          "their entry, template filled). Splicing (re.sub), pandas transforms and the frame of assemble(): bounded workload against an oracle written "
          "from the property." + BND, "str.replace uninterpreted with three sound facts; pandas, re not modelled"),
